@@ -222,6 +222,11 @@ def scan(f, pos):
             # string, we need to read more data.
             s = l_ + 1
             if s > len(data) - 8:
+                if len(data) < 8096:
+                    # That was the end of the file: there is no room left
+                    # for a transaction length, and reading again from
+                    # here would return the same bytes for ever.
+                    return 0
                 pos += l_
                 break
             tl = u64(data[s:s + 8])
